@@ -127,6 +127,7 @@ type cls struct {
 	params map[int]bool
 	shared []reason
 	why    []string
+	owned  bool // justified (in part) by transaction ownership (J2) rather than freshness
 }
 
 func (a *cls) join(b cls) {
@@ -137,6 +138,7 @@ func (a *cls) join(b cls) {
 		a.params[p] = true
 	}
 	a.shared = append(a.shared, b.shared...)
+	a.owned = a.owned || b.owned
 	for _, w := range b.why {
 		dup := false
 		for _, x := range a.why {
@@ -150,7 +152,8 @@ func (a *cls) join(b cls) {
 	}
 }
 
-func clsWhy(s string) cls { return cls{why: []string{s}} }
+func clsWhy(s string) cls   { return cls{why: []string{s}} }
+func clsOwned(s string) cls { return cls{why: []string{s}, owned: true} }
 func clsShared(msg string, pos token.Pos) cls {
 	return cls{shared: []reason{{msg, pos}}}
 }
@@ -463,7 +466,7 @@ func (im *immut) class(v ssa.Value, cx *clsCtx) cls {
 	// an entry pointer under the `locked` guard is owned
 	if namedTypeName(v.Type()) == "tableEntry" {
 		if _, ok := v.Type().Underlying().(*types.Pointer); ok && im.lockedFact(v, cx.use) {
-			return clsWhy("*tableEntry under a true `locked` test (private copy of this write transaction)")
+			return clsOwned("*tableEntry under a true `locked` test (private copy of this write transaction)")
 		}
 	}
 	switch x := v.(type) {
@@ -544,7 +547,7 @@ func (im *immut) class(v ssa.Value, cx *clsCtx) cls {
 	case *ssa.Field:
 		// field of a struct value
 		if fk := structFieldKey(x); alwaysOwnedFields[fk] {
-			return clsWhy("field " + fk + " only ever holds private data")
+			return clsOwned("field " + fk + " only ever holds private data")
 		}
 		return clsShared("pointer/slice taken from a struct value ("+structFieldKey(x)+")", x.Pos())
 	case *ssa.TypeAssert:
@@ -588,7 +591,7 @@ func (im *immut) classCall(call *ssa.Call, resultIdx int, cx *clsCtx) cls {
 	if im.c.inModule(f) {
 		n := im.c.fnName(f)
 		if owningCtors[n] {
-			return clsWhy("result of " + n + " (owned by the calling transaction: copy, or same txnID)")
+			return clsOwned("result of " + n + " (owned by the calling transaction: copy, or same txnID)")
 		}
 		if freshCtors[n] {
 			return clsWhy("result of " + n + " (fresh copy)")
@@ -1026,7 +1029,7 @@ func (im *immut) classLoad(load *ssa.UnOp, addr ssa.Value, cx *clsCtx) cls {
 	if fa != nil {
 		fk = fieldKeyOf(fa)
 		if alwaysOwnedFields[fk] {
-			return clsWhy("field " + fk + " only ever holds private slices (OWNED-FIELD)")
+			return clsOwned("field " + fk + " only ever holds private slices (OWNED-FIELD)")
 		}
 	}
 	rr := im.reachingStores(addr, load)
@@ -1044,7 +1047,7 @@ func (im *immut) classLoad(load *ssa.UnOp, addr ssa.Value, cx *clsCtx) cls {
 	if fa != nil && ownedWithParent[fk] {
 		r := im.class(fa.X, cx)
 		if len(r.shared) == 0 && len(r.params) == 0 {
-			return clsWhy("field " + fk + " is owned together with its (owned) entry")
+			return clsOwned("field " + fk + " is owned together with its (owned) entry")
 		}
 		return r
 	}
